@@ -18,8 +18,27 @@ import os
 from common import Infra
 
 
+def replay(ctx, b):
+    """--replay PATH: re-execute the saved, TLC-judged case against the current tree and print the divergence."""
+    import sys
+    with open(ctx.replay) as fh:
+        obj = json.load(fh)
+    f = os.path.join(ctx.work, "replay_case.ndjson")
+    with open(f, "w") as fh:
+        fh.write(json.dumps(obj["replay"]["export"]) + "\n")
+    ctx.known = []
+    h = ctx.harness([b, "run", f])
+    for v in h["violations"]:
+        print("REPLAY diverges [%s]: %s" % (v["sig"], v["desc"][:1500]))
+    if not h["violations"]:
+        print("REPLAY: the saved case now agrees with the specification")
+    sys.exit(1 if h["violations"] else 0)
+
+
 def run(ctx):
     b = ctx.build("c01")
+    if ctx.replay:
+        replay(ctx, b)
     quick = ctx.tier == "quick"
     tier = "quick" if quick else "thorough"
     tot = dict(cases=0, code_accepted=0, agree_accept=0, agree_reject=0, completeness_disagreements=0,
@@ -74,8 +93,12 @@ def run(ctx):
         with open(ctlfile, "w") as fh:
             fh.write(json.dumps(bad1) + "\n" + json.dumps(bad2) + "\n")
         saved = (list(ctx.violations), list(ctx.known_hits))
+        rdir = os.path.join(ctx.work, "replay")
+        before = set(os.listdir(rdir))
         hc = ctx.harness([b, "run", ctlfile])
         ctx.violations, ctx.known_hits = saved
+        for f in set(os.listdir(rdir)) - before:      # the control's "violations" are not findings
+            os.remove(os.path.join(rdir, f))
         sigs = sorted(v["sig"] for v in hc["violations"])
         if not (any(s.startswith("fee:reported") for s in sigs) and any(s.startswith("fee:txfee") for s in sigs)
                 and any(s.startswith("accept:unconserved") for s in sigs)):
